@@ -360,6 +360,94 @@ def check_C20(ctx):
                 '; non-trivial = every case (108 distinct)', nontrivial=lambda s, es: True)
     vt.write_evidence(ctx, 'model_checking', ctx_rule(ctx), exhaustive=True)
 
+def check_C12(ctx):
+    import re, subprocess
+    # 1. the configurations (TLC) -> the actual programs of the working tree (harness, hook H2)
+    cfgs = os.path.join(ctx.scratch, 'bpfcfg.json')
+    r = vt.run_tlc('BpfCfg', env={'VT_OUT': cfgs}, workers=1, timeout=120)
+    if not r.ok():
+        raise Infra('BpfCfg failed: ' + vt.filtered(r.out, 20))
+    vt.build_harness(ctx)
+    progs = os.path.join(ctx.scratch, 'bpfprogs.json')
+    p = vt.sh([ctx.bin, '-test.run', 'TestBpfDump', '-vt.in', cfgs, '-vt.bpfdump', progs], env=vt.goenv())
+    if p.returncode != 0 or not os.path.exists(progs):
+        raise Infra('program extraction failed: ' + p.stdout[-2000:])
+    plist = json.load(open(progs))
+    # 2. exhaustive interpretation of the extracted instructions over the frame class space
+    r = vt.run_tlc('Bpf', env={'VT_BPF': progs, 'VT_BPFONLY': '', 'VT_SAMPLE': '1'}, timeout=1500, extra=['-seed', str(ctx.seed)])
+    ctx.design.append({'module': 'Bpf', 'cfg': 'Bpf.cfg', 'generated': r.generated, 'distinct': r.distinct, 'wall_s': round(r.wall, 1), 'violated': r.violated,
+                       'programs': len(plist)})
+    ctx.states += r.distinct; ctx.transitions += r.generated
+    if r.timeout:
+        raise Infra('Bpf.tla timed out')
+    samples = []
+    for line in r.out.splitlines():
+        m = re.match(r'^<<"FRAME", "(.*)">>$', line)
+        if m:
+            samples.append(json.loads(m.group(1).encode().decode('unicode_escape')))
+    cex = None
+    if 'C12_Exact' in r.violated or 'ProgramsExtracted' in r.violated:
+        m = re.search(r'/\\ fr = <<([0-9, ]*)>>', r.out[r.out.find('Invariant'):])
+        m2 = re.search(r'/\\ pi = (\d+)', r.out[r.out.find('Invariant'):])
+        # the violating state is the LAST state printed
+        frs = re.findall(r'/\\ fr = <<([0-9,\s]*)>>', r.out)
+        pis = re.findall(r'/\\ pi = (\d+)', r.out)
+        if 'ProgramsExtracted' in r.violated or not frs or not pis:
+            bad = [x for x in plist if x['err'] or not x['prog']]
+            cex = {'prog': 0, 'frame': [], 'why': 'no program extracted for ' + json.dumps([b['name'] for b in bad])}
+        else:
+            frame = [int(x) for x in frs[-1].split(',') if x.strip()]
+            vds = re.findall(r'/\\ vd = (TRUE|FALSE)', r.out); rfs = re.findall(r'/\\ rf = (TRUE|FALSE)', r.out)
+            cex = {'prog': int(pis[-1]), 'frame': frame, 'tla_verdict': vds[-1] == 'TRUE', 'reference': rfs[-1] == 'TRUE'}
+    elif not r.ok():
+        raise Infra('Bpf.tla failed: ' + vt.filtered(r.out, 40))
+    # 3. cross-check the TLA+ interpreter against the real x/net/bpf VM on the real programs
+    def vm_check(cases, name):
+        cf = os.path.join(ctx.scratch, name + '.ndjson'); of = os.path.join(ctx.scratch, name + '.out.json')
+        with open(cf, 'w') as f:
+            for c in cases:
+                f.write(json.dumps(c) + '\n')
+        q = vt.sh([ctx.bin, '-test.run', 'TestBpfCheck', '-vt.in', progs, '-vt.bpfcheck', cf, '-vt.out', of], env=vt.goenv())
+        if q.returncode != 0 or not os.path.exists(of):
+            raise Infra('VM cross-check failed: ' + q.stdout[-2000:])
+        return json.load(open(of))
+    res = vm_check(samples, 'samples') if samples else {'checked': 0, 'disagree': [], 'accepted': 0}
+    ctx.extra['vm_frames_checked'] = res['checked']; ctx.extra['vm_frames_accepted'] = res['accepted']
+    if res['disagree']:
+        raise Infra('Bpf.tla interpreter disagrees with the real VM on %d frame(s), e.g. %s' % (len(res['disagree']), json.dumps(res['disagree'][0])[:300]))
+    ctx.evaluations += r.distinct
+    ctx.nontrivial.update(('prog', x['name'], tuple(x['src']), tuple(x['dst']), x['sport'], x['dport']) for x in plist)
+    ctx.samples.append({'program': plist[0], 'frames_with_verdicts': samples[:3]})
+    if cex is not None:
+        if cex['frame']:
+            # TLA+ says Verdict # Ref on this frame: confirm on the real VM that the program's verdict is what the interpreter computed
+            tl = vt.run_tlc('Bpf', env={'VT_BPF': progs, 'VT_BPFONLY': '', 'VT_SAMPLE': '0'}, timeout=10) if False else None
+            refv = cex.get('ref')
+            one = vm_check([{'prog': cex['prog'], 'frame': cex['frame'], 'verdict': True}], 'cex')
+            real_accepts = one['accepted'] == 1
+            cex['real_vm_accepts'] = real_accepts
+            if real_accepts != cex['tla_verdict']:
+                raise Infra('Bpf.tla counterexample does not reproduce on the real VM (interpreter bug): ' + json.dumps(cex)[:400])
+            cex['config'] = {k: plist[cex['prog'] - 1][k] for k in ('name', 'src', 'dst', 'sport', 'dport')}
+        d = vt.save_replay(ctx, 'C12', [{'id': 'C12/cex', 'kind': 'bpf', 'cex': cex}], [], 'counterexample frame: the extracted program and the reference predicate disagree')
+        ctx.violations.append(('C12', 'filter/%s' % (cex.get('config', {}).get('name', 'extract')), 'C12/cex', d))
+    # 4. end to end: twin runs with the real programs applied by the simulated capture handle
+    if cex is None:
+        scen = vt.tlc_generate(ctx, 'GenWire', 'C02', 40 if ctx.quick() else 600)
+        pairs = []
+        for s0 in scen:
+            a = dict(s0); a['id'] = s0['id'] + '#nofilter'
+            b = dict(s0); b['id'] = s0['id'] + '#filter'; b['filter'] = True; b['twin'] = a['id']; b['label'] = 'e2e-filter/' + s0['label']
+            pairs += [a, b]
+        rule = ('(1) the classic-BPF instructions of every filter configuration (static programs; TCP 4-tuple program for address/port byte patterns at '
+                'sign/endianness boundaries) are extracted from the working tree and interpreted by Bpf.tla over the frame class space (ethertype, protocol, IHL 0..15, '
+                'fragment words, each address/port byte equal/different, all 256 TCP flag bytes, frame lengths around every load offset, IPv6 next-header chains) '
+                'against declarative reference predicates; (2) a seeded 1/40 sample of the frames is re-run on the real x/net/bpf VM; (3) wire scenarios run twice, '
+                'with and without the real programs applied; distinct = filter configuration')
+        wire_family(ctx, 'C12', pairs, rule, nontrivial=lambda s, es: False)
+        ctx.extra['rule'] = rule
+    vt.write_evidence(ctx, 'model_checking', ctx.extra.get('rule', 'see DESIGN.md C12'), exhaustive=True)
+
 def check_C07(ctx):
     cfgs = ['EngineParallelMC.cfg', 'EngineParallelMC_faults.cfg']
     if not ctx.quick():
@@ -368,7 +456,7 @@ def check_C07(ctx):
     vt.write_evidence(ctx, 'model_checking', ctx_rule(ctx), exhaustive=True)
 
 CHECKS = {
-    'C01': check_C01, 'C02': check_C02, 'C03': check_C03, 'C04': check_C04, 'C05': check_C05, 'C06': check_C06, 'C07': check_C07, 'C08': check_C08, 'C09': check_C09, 'C10': check_C10, 'C11': check_C11, 'C15': check_C15, 'C20': check_C20, 'C19': check_C19,
+    'C01': check_C01, 'C02': check_C02, 'C03': check_C03, 'C04': check_C04, 'C05': check_C05, 'C06': check_C06, 'C07': check_C07, 'C08': check_C08, 'C09': check_C09, 'C10': check_C10, 'C11': check_C11, 'C12': check_C12, 'C15': check_C15, 'C20': check_C20, 'C19': check_C19,
 }
 
 def replay(ctx, path):
